@@ -1,6 +1,7 @@
 import Crv.Proofs.Sched
 import Crv.Proofs.Skeleton
 import Crv.Generated.Sched
+import Crv.Props.C10Loader
 /-!
 C15 — Refresh liveness. Theorems over the scheduling model `Crv.Sched` instantiated with the facts the
 translator regenerates from crl/crlrevocationchecker.go and crl/crlrepository/crlrepository.go on every
@@ -203,5 +204,32 @@ theorem repo_sources_as_transcribed : Crv.Generated.skeletonRepo = Crv.Skeleton.
 recomputed from /repo on every run (tools/extract/skeleton.go), so any change to one of the functions breaks this obligation. -/
 theorem loader_sources_as_transcribed : Crv.Generated.skeletonLoader = Crv.Skeleton.expectedLoader :=
   Crv.Skeleton.loader_sources_as_transcribed
+
+/-! ### "again after failed attempts" at the loader layer (re-exports of `Crv.Props.C10.Loader`) -/
+section LoaderLayer
+open Crv.Loader
+
+/-- After **any** history of `LoadCRL` calls on one multi-location loader object, a call succeeds exactly when some distribution
+point answers in that call: no location is given up on because of earlier failures. -/
+theorem loader_no_blacklisting (n : Nat) (hist : List (Nat → Bool)) (out : Nat → Bool) :
+    (runCalls (fresh n) hist).wf = true ∧ (runCalls (fresh n) hist).n = n ∧
+    ((∃ j, (load (runCalls (fresh n) hist) out).2.1 = some j) ↔ ∃ j, j < n ∧ out j = true) ∧
+    ((∃ j, j < n ∧ out j = true) →
+      ∃ j, (load (runCalls (fresh n) hist) out).2.1 = some j ∧ j < n ∧ out j = true) :=
+  Crv.Props.C10.Loader.no_blacklisting n hist out
+
+/-- One fetch through `utils.Retry` with the package's retry count ends after at most five attempts (it cannot hold the refresh
+mutex for an unbounded number of attempts) and succeeds iff one of them does. -/
+theorem loader_retry_bounded (out : Nat → Bool) :
+    1 ≤ (loaderRetry out).2 ∧ (loaderRetry out).2 ≤ 5 ∧
+    ((loaderRetry out).1 = true ↔ ∃ k, k < 5 ∧ out k = true) :=
+  Crv.Props.C10.Loader.loader_retry_five out
+
+/-- A failing load has asked every loader, and every one of them failed in this call. -/
+theorem loader_failure_tried_everyone (m : Multi) (out : Nat → Bool) (h : (load m out).2.1 = none) :
+    (∀ j, j < m.n → j ∈ (load m out).2.2) ∧ (∀ j ∈ (load m out).2.2, out j = false) :=
+  ⟨(Crv.Props.C10.Loader.load_failure_tries_everyone m out h).1, (Crv.Props.C10.Loader.load_failure_tries_everyone m out h).2.1⟩
+
+end LoaderLayer
 
 end Crv.Props.C15
